@@ -78,6 +78,7 @@ func buildFork(cs caseSpec, thorough bool) *Scenario {
 	sc.Warm = r.Bool()
 	sc.Restart = r.Chance(1, 3)
 	sc.FailedOps = r.Chance(1, 3)
+	sc.FinaliseA = r.Chance(1, 4)
 	// restarts of node A: a quarter of the positions (before each RevertHead, before the first
 	// Store of a fork, before the comparisons), killed or shut down gracefully
 	if r.Chance(2, 3) {
@@ -325,6 +326,30 @@ var outsideScenarios = []directed{
 		m2.Diff.MigratedClasses[felt.SierraClassHash(h)] = felt.CasmClassHash(c2)
 		return sc1([]*lib.BlockSpec{declareSierra(D().Spec("0.14.0"), 6, false), m1, m2}, 1)
 	}},
+	{"refused:second-migration-after-other-blocks", func(ns bool) *Scenario {
+		// the same class listed as migrated again two blocks after its migration, next to ordinary content
+		h, _, _, c2 := mySierra(7)
+		m1 := D().Deploy(0x104, 0xc000).Spec("0.14.1")
+		m1.Diff.MigratedClasses[felt.SierraClassHash(h)] = felt.CasmClassHash(c2)
+		m2 := D().Set(0x104, 1, 5).Nonce(0x104, 1).Spec("0.14.1")
+		m2.Diff.MigratedClasses[felt.SierraClassHash(h)] = felt.CasmClassHash(c2)
+		return sc1([]*lib.BlockSpec{declareSierra(D().Spec("0.13.4"), 7, false), m1, D().Set(0x104, 1, 3).Spec("0.14.1"), m2}, 1,
+			D().Set(0x104, 1, 4).Spec("0.14.1"))
+	}},
+	{"refused:migration-of-a-class-declared-with-the-v2-hash", func(ns bool) *Scenario {
+		h, _, _, c2 := mySierra(8)
+		m := D().Spec("0.14.1")
+		m.Diff.MigratedClasses[felt.SierraClassHash(h)] = felt.CasmClassHash(c2)
+		return sc1([]*lib.BlockSpec{declareSierra(D().Spec("0.14.1"), 8, true), m}, 1)
+	}},
+	{"refused:sierra-declaration-without-definition-from-0.14.1", func(ns bool) *Scenario { // fecbdb1
+		s := declareSierra(D().Spec("0.14.1"), 9, true)
+		s.Classes = map[felt.Felt]core.ClassDefinition{}
+		return sc1([]*lib.BlockSpec{D().Spec("0.14.1"), s}, 1)
+	}},
+	{"decl1:sierra-class-declared-again-with-the-v2-hash", func(ns bool) *Scenario {
+		return sc1([]*lib.BlockSpec{declareSierra(D().Spec("0.14.1"), 10, true), declareSierra(D().Spec("0.14.1"), 10, true)}, 1)
+	}},
 	{"casmFresh+migrate:declare-and-migrate-in-one-block", func(ns bool) *Scenario {
 		h, _, _, c2 := mySierra(4)
 		s := declareSierra(D().Spec("0.14.1"), 4, true)
@@ -461,6 +486,12 @@ func buildCase(cs caseSpec, thorough bool) *Scenario {
 			sc.LightModel = cs.Case%4 != 0
 			sc.SmallUniverse = true
 			sc.FailedOps = cs.Case%5 == 0
+		}
+	case "boundary":
+		base := getBase(cs.NewState, genOptions())
+		sc = buildBoundary(cs, base)
+		if sc != nil {
+			sc.FullBaseDump = cs.Case == 0
 		}
 	case "window":
 		// no in-place restart of A here: a fresh Blockchain instance has an empty filter cache and
@@ -702,8 +733,13 @@ func scenarioText(sc *Scenario) map[string]any {
 	if len(main) > 24 {
 		main = append([]string{fmt.Sprintf("... %d earlier blocks ...", len(main)-24)}, main[len(main)-24:]...)
 	}
-	return map[string]any{"main_chain": main, "rounds": rounds, "failed_operations_offered_to_A": sc.FailedOps, "event_queries_before_revert": sc.Warm, "restart_compared": sc.Restart,
+	out := map[string]any{"main_chain": main, "rounds": rounds, "failed_operations_offered_to_A": sc.FailedOps, "event_queries_before_revert": sc.Warm, "restart_compared": sc.Restart,
 		"restart_plan_of_A": sc.RestartPlan, "restart_mode_of_A": sc.RestartMode}
+	if sc.Base != nil {
+		out["base_image"] = fmt.Sprintf("blocks 0..%d are empty (no transactions, empty state diff, version %s); main_chain starts at block %d", sc.Base.Len-1, baseVersion, sc.Base.Len)
+		out["event_queries_after_every_operation_of_A"] = sc.QueryEach
+	}
+	return out
 }
 
 // ---------------------------------------------------------------------------------------------
@@ -798,7 +834,7 @@ func main() {
 	res := lib.NewResult("a case = one scenario on one state backend: node A stores a chain, then 1-2 rounds of (revert k blocks, follow a fork); " +
 		"after every round A is compared with a fresh node B that stored only the resulting chain (decoded database + full Reader API + restarted copies) " +
 		"and with the Lean model. Kinds: random forks, directed shapes (incl. blocks that violate one protocol assumption each), " +
-		"exhaustive 3-block/one-slot enumeration, 8192-block window crossing. Non-trivial = at least one block was reverted")
+		"exhaustive 3-block/one-slot enumeration, 8192-block window boundary (from a base image of 8185 empty blocks: chain end W-2..W+2, every revert depth to W-4, event queries after every operation). Non-trivial = at least one block was reverted")
 	opt := genOptions()
 	pr := runProbes(opt)
 	res.Note("repairs detected in the tree under test: zeroWriteFix(05cf200)=%v removeImplicitClasses(64c1acb)=%v legacyPurgeOnUpdate=%v legacyDedupDeclared(7460746)=%v",
@@ -840,8 +876,9 @@ func main() {
 		cases = []caseSpec{doc.Replay.Replay}
 	} else {
 		for _, ns := range []bool{false, true} {
-			// quick: one backend per run (by seed parity), thorough: both
-			if f.Thorough() || ns == (f.Seed%2 == 0) {
+			// the 8195-block scenario stored block by block (thorough only: the boundary family below
+			// reaches the same heights from the base image, on both backends, in every quick run)
+			if f.Thorough() {
 				cases = append(cases, caseSpec{Kind: "window", NewState: ns, Seed: f.Seed})
 			}
 		}
@@ -865,6 +902,20 @@ func main() {
 		n := f.Scale(96, 2500)
 		for i := 0; i < n; i++ {
 			cases = append(cases, caseSpec{Kind: "fork", NewState: i%2 == 0, Seed: f.Seed, Case: i})
+		}
+		// last: the boundary family (its base images are being built while the cases above run)
+		for i, bp := range boundaryParamList(f.Thorough()) {
+			for _, ns := range []bool{false, true} {
+				cases = append(cases, caseSpec{Kind: "boundary", NewState: ns, Seed: f.Seed, Case: i, Name: bp.name()})
+			}
+		}
+	}
+	for _, ns := range []bool{false, true} {
+		for _, c := range cases {
+			if c.Kind == "boundary" && c.NewState == ns {
+				go getBase(ns, opt)
+				break
+			}
 		}
 	}
 
@@ -932,9 +983,9 @@ func main() {
 			answers := map[string]string{}
 			if r.Trace != nil {
 				p := pr
-				if cs.Kind == "window" {
-					p.dropReopenedWindow = r.Hits["reopened-window-dropped"] > 0
-				}
+				// 702b167 (the reopened window's persisted copy is dropped): observed per case, it matters
+				// only to a case that reopens a window
+				p.dropReopenedWindow = r.Hits["reopened-window-still-persisted"] == 0
 				d := <-drivers
 				var n int
 				var ans map[string]string
@@ -976,7 +1027,13 @@ func main() {
 				}
 				res.Hit(fmt.Sprintf("outside-protocol:%s:%s:%s", cs.Name, backend, outcome))
 				res.Case(fmt.Sprintf("%s/%s/%s", cs.Kind, backend, cs.Name), true)
-				return
+				if !strings.HasPrefix(cs.Name, "refused:") || r.Skipped != "" {
+					return
+				}
+				// a block juno must refuse was STORED: the property speaks about every block the node was able
+				// to store, so what follows (RevertHead fails, A differs from B) is reported like for any other
+				// stored block, with the offered blocks as replay
+				res.Hit("refused-block-was-stored:" + cs.Name)
 			}
 			for _, fd := range r.Findings {
 				if m, ok := fd.Detail.(map[string]any); ok && m["k1_candidate"] == true {
@@ -993,6 +1050,9 @@ func main() {
 					firstBySig[fd.Sig] = &shrinkJob{cs, sc, fd}
 				}
 				mu.Unlock()
+			}
+			if r.BaseFailed {
+				res.Fatalf("case %+v: %s", cs, r.Skipped)
 			}
 			if r.Skipped != "" {
 				res.Hit("skipped")
@@ -1027,7 +1087,11 @@ func main() {
 			// K1 is decided with the model's answer, which the shrinker does not have: shrink on the raw sig
 			raw := sig
 			if job.cs.Kind != "window" && sig != sigK1 {
-				small := shrink(job.sc, raw, opt, 120)
+				budget := 120
+				if job.sc.Base != nil {
+					budget = 16
+				}
+				small := shrink(job.sc, raw, opt, budget)
 				r := execScenario(small, opt, false)
 				for _, x := range r.Findings {
 					if x.Sig == raw {
